@@ -676,6 +676,42 @@ impl<'a> VisitMut for MacPass<'a> {
     }
 }
 
+// ------------------------------------------------------------------ R-FORTMP
+
+/// `for x in A.f().g() { .. }` keeps the temporary `A.f()` alive for the whole loop in Rust; Verus' for-loop
+/// encoding does not, so the receiver temporary is bound by an explicit `let` in an enclosing block
+struct ForTmp<'a> {
+    log: &'a mut Vec<String>,
+    n: usize,
+}
+impl<'a> VisitMut for ForTmp<'a> {
+    fn visit_expr_mut(&mut self, e: &mut Expr) {
+        visit_mut::visit_expr_mut(self, e);
+        if let Expr::ForLoop(f) = e {
+            if let Expr::MethodCall(mc) = &mut *f.expr {
+                fn has_call(x: &Expr) -> bool {
+                    match x {
+                        Expr::MethodCall(_) | Expr::Call(_) => true,
+                        Expr::Field(f) => has_call(&f.base),
+                        Expr::Reference(r) => has_call(&r.expr),
+                        Expr::Paren(p) => has_call(&p.expr),
+                        _ => false,
+                    }
+                }
+                if has_call(&mc.receiver) {
+                    self.n += 1;
+                    let tmp = quote::format_ident!("__fjx_tmp{}", self.n);
+                    let recv = (*mc.receiver).clone();
+                    mc.receiver = Box::new(parse_quote! { #tmp });
+                    let fl = f.clone();
+                    *e = parse_quote! { { let #tmp = #recv; #fl } };
+                    self.log.push("R-FORTMP receiver temporary of a for-loop iterator bound by `let`".into());
+                }
+            }
+        }
+    }
+}
+
 // ------------------------------------------------------------------ R-SCOPE
 
 struct ReturnDrop<'a> {
@@ -700,13 +736,34 @@ impl<'a> VisitMut for ReturnDrop<'a> {
 
 /// rule R-SCOPE: the scope-end drop of a lock guard bound by a top-level `let` is made explicit at every exit
 /// that the guard is still alive at (Rust drops locals at `return` and at the end of the block, in reverse order)
-fn scope_pass(block: &mut syn::Block, patterns: &[String], log: &mut Vec<String>) {
+struct ScopeRec<'a> {
+    patterns: &'a [String],
+    log: &'a mut Vec<String>,
+}
+impl<'a> VisitMut for ScopeRec<'a> {
+    fn visit_block_mut(&mut self, b: &mut syn::Block) {
+        visit_mut::visit_block_mut(self, b); // inner scopes first: their guards are dropped before the outer ones
+        scope_pass_one(b, self.patterns, self.log);
+    }
+}
+fn scope_pass(block: &mut syn::Block, patterns: &[String], param_guards: &[proc_macro2::Ident], log: &mut Vec<String>) {
     if patterns.is_empty() {
         return;
     }
-    // (decl index, ident)
-    let mut guards: Vec<(usize, proc_macro2::Ident)> = vec![];
+    // nested scopes first
+    for st in block.stmts.iter_mut() {
+        ScopeRec { patterns, log }.visit_stmt_mut(st);
+    }
+    scope_pass_top(block, patterns, param_guards, log);
+}
+fn scope_pass_one(block: &mut syn::Block, patterns: &[String], log: &mut Vec<String>) {
+    scope_pass_top(block, patterns, &[], log);
+}
+fn scope_pass_top(block: &mut syn::Block, patterns: &[String], param_guards: &[proc_macro2::Ident], log: &mut Vec<String>) {
+    // (decl index + 1, ident); parameters that are guards are alive from the first statement on (index 0)
+    let mut guards: Vec<(usize, proc_macro2::Ident)> = param_guards.iter().map(|g| (0usize, g.clone())).collect();
     for (i, st) in block.stmts.iter().enumerate() {
+        let i = i + 1;
         if let Stmt::Local(l) = st {
             let id = match &l.pat {
                 syn::Pat::Ident(pi) => Some(pi.ident.clone()),
@@ -733,7 +790,7 @@ fn scope_pass(block: &mut syn::Block, patterns: &[String], log: &mut Vec<String>
     for (di, id) in &guards {
         let name = id.to_string();
         let mut rel = None;
-        for j in (di + 1)..n {
+        for j in *di..n {
             let s = tok(&block.stmts[j]);
             let moved = s.contains(&format!("drop({name})"))
                 || s.contains(&format!("({name},"))
@@ -752,7 +809,7 @@ fn scope_pass(block: &mut syn::Block, patterns: &[String], log: &mut Vec<String>
         let alive: Vec<proc_macro2::Ident> = guards
             .iter()
             .zip(release.iter())
-            .filter(|((di, _), rel)| j > *di && rel.map(|r| j < r).unwrap_or(true))
+            .filter(|((di, _), rel)| j + 1 > *di && rel.map(|r| j < r).unwrap_or(true))
             .map(|((_, id), _)| id.clone())
             .collect();
         // the declaring statement itself: `let g = x.lock()?;` returns before the guard exists -> nothing to drop
@@ -1322,8 +1379,22 @@ impl Unit {
             _ => false,
         };
         HofPass { log: &mut log, counter: 0, ret_is_option, closure_depth: 0 }.visit_block_mut(&mut block);
+        // R-FORTMP
+        ForTmp { log: &mut log, n: 0 }.visit_block_mut(&mut block);
         // R-SCOPE (after R-TRY so that every exit is an explicit `return`)
-        scope_pass(&mut block, &self.guards, &mut log);
+        let param_guards: Vec<proc_macro2::Ident> = sig
+            .inputs
+            .iter()
+            .filter_map(|a| match a {
+                syn::FnArg::Typed(pt) => match &*pt.pat {
+                    syn::Pat::Ident(pi) if self.guards.iter().any(|g| g.strip_prefix("param:").map(|n| pi.ident == n).unwrap_or(false)) => Some(pi.ident.clone()),
+                    _ => None,
+                },
+                _ => None,
+            })
+            .collect();
+        let guard_pats: Vec<String> = self.guards.iter().filter(|g| !g.starts_with("param:")).cloned().collect();
+        scope_pass(&mut block, &guard_pats, &param_guards, &mut log);
         // R-ITER: `p: impl Iterator<Item = &'a T>` -> `p: &'a [T]`, `for x in p` -> `for x in p.iter()`
         for pname in &spec.iter_params {
             self.check_iter_call_sites(&spec.name);
@@ -1447,6 +1518,7 @@ impl Unit {
         }
         // R-WORLD
         if spec.world {
+            if std::env::var("FJX_DEBUG").is_ok() { eprintln!("world pats for {}: {:?}", spec.name, pats); }
             WorldPass { pats: &pats, log: &mut log }.visit_block_mut(&mut block);
             sig.inputs.push(parse_quote! { Tracked(w): Tracked<&mut World> });
             log.push("R-WORLD ghost parameter added".into());
